@@ -38,7 +38,7 @@ ASSUMPTIONS = [
     "that is a further finding)",
     "BOOL accepts every Python value by truthiness (its _encode is annotated Any): no value is outside BOOL's domain",
     "a hang is observed as: no result within 0.5 s of CPU-bound work in a forked child (RLIMIT_AS 3 GiB)",
-    "STRING2 (F16, property C06) announces characters but reads bytes: it is excluded from the short-read and whole-elements oracles",
+    "Array(None, <bit string>) may return the k elements as k lists or as the flat list of k * 8w bits",
 ]
 
 BUDGET = 0.5
@@ -74,11 +74,11 @@ def need(td, data, pos=0):
         if name == "DATE_AND_TIME":
             e = pos + 6
             return e, ("fixed:DATE_AND_TIME" if e > n else None)
-        if name in STR_PREFIX:
-            lw = STR_PREFIX[name]
+        if name in STR_PREFIX or name == "STRING2":
+            lw = STR_PREFIX.get(name, 2)
             if pos + lw > n:
                 return pos + lw, "fixed:len"
-            e = pos + lw + _u(data, pos, lw)
+            e = pos + lw + _u(data, pos, lw) * (2 if name == "STRING2" else 1)
             return e, ("string" if e > n else None)
         if name == "STRINGN":
             if pos + 4 > n:
@@ -96,7 +96,7 @@ def need(td, data, pos=0):
                 if p + 6 > n:
                     return p + 6, "stringi"
                 st = STRINGI_CODES.get(data[p + 3])
-                if st is None or st == "STRING2":
+                if st is None:
                     raise _Unknown()
                 p, leaf = need(("elem", st), data, p + 6)
                 if leaf:
@@ -132,6 +132,23 @@ def need(td, data, pos=0):
         p = pos
         for _ in range(td[1]):
             p, leaf = need(td[2], data, p)
+            if leaf:
+                return p, leaf
+        return p, None
+    if k == "arrp":
+        lt = td[2]
+        if lt[0] != "elem" or lt[1] not in cc.INT_NAMES or cc.INT_NAMES[lt[1]][0]:
+            raise _Unknown()
+        lw = cc.INT_NAMES[lt[1]][1]
+        if pos + lw > n:
+            return pos + lw, "fixed:len"
+        cnt, p = _u(data, pos, lw), pos + lw
+        if cnt > n:                        # more elements than bytes: only zero-width elements could fit
+            if min_width(td[3]) > 0:
+                return p + cnt * min_width(td[3]), "array-elements"
+            raise _Unknown()
+        for _ in range(cnt):
+            p, leaf = need(td[3], data, p)
             if leaf:
                 return p, leaf
         return p, None
@@ -281,7 +298,15 @@ def bad_reason(td, v):
     k = td[0]
     if k == "elem":
         n = td[1]
-        if n == "BOOL" or n in ("DATE_AND_TIME", "STRINGI"):
+        if n == "BOOL" or n == "STRINGI":
+            return None
+        if n == "DATE_AND_TIME":
+            if _scalar(v):
+                return "datetime-not-a-pair"
+            if isinstance(v, (list, tuple)):
+                if len(v) != 2:
+                    return "datetime-not-a-pair"
+                return bad_reason(("elem", "UDINT"), v[0]) or bad_reason(("elem", "UINT"), v[1])
             return None
         if n in cc.INT_NAMES:
             sg, w = cc.INT_NAMES[n]
@@ -312,7 +337,7 @@ def bad_reason(td, v):
         if n in cc.STR_NAMES or n == "STRINGN":
             if not isinstance(v, str):
                 return "string-wrong-type"
-            lw, enc = cc.STR_NAMES.get(n, (2, "utf8"))
+            lw, enc = cc.STR_NAMES.get(n, (2, "latin1"))      # STRINGN.encode(value): one byte per character
             if len(v) >= (1 << (8 * lw)):
                 return "string-too-long"
             if _unencodable(v, {"latin1": "iso-8859-1", "utf16": "utf-16-le", "utf8": "utf-8"}[enc]):
@@ -773,7 +798,11 @@ def exact_stream(R, mp, n_types, rng):
         R.evaluations += 1
         R.count("exact_elements", k)
         R.count("exact_elem_kind", cc.ty_kind(c[1][1]))
-        ok = im[0] == "ok" and im[1][0] == "L" and len(im[1][1]) == k and im[2] == len(c[2])
+        e = c[1][1]
+        counts = {k}
+        if e[0] == "elem" and e[1] in cc.BITS_NAMES:
+            counts.add(k * 8 * cc.BITS_NAMES[e[1]])       # Array(None, <bit string>) returns the flat list of bits
+        ok = im[0] == "ok" and im[1][0] == "L" and len(im[1][1]) in counts and im[2] == len(c[2])
         if not ok:
             zero = zero_length_read_class(c[1]) == "STRINGN-zero-characters" and any(_has_empty_text(v) for v in vs)
             cls = "dec:unbounded-array-not-exact:STRINGN-zero-characters" if zero else f"dec:unbounded-array-not-exact:{cc.ty_kind(c[1][1])}"
